@@ -20,18 +20,34 @@ Print Assumptions C01_requote_refuted.
 Example C01_requote_example : forallb piece_safe [Lit [97; 92; 34; 32]%N; Other; Lit [39]%N] = true.
 Proof. reflexivity. Qed.
 
-(** * The lifting theorem (coq/Proofs/RunLift.v over the orchestration model coq/Model/Run.v)
-    Indexed by the guard tables extracted from the three pipelines' [apply]: when every pipeline returns before writing
-    if no change was reported, then for ANY codemod list, options, project and oracles: if every transformer maps text
-    that parses to text that parses, every non-manifest file that parsed before the run parses after it. *)
-From CM Require Import Model.Run Proofs.RunLift.
-Theorem C01_whole_run_lift : C01_lift_statement run_tables_v.
+(** * The lifting theorem (coq/Proofs/RunLift.v over the orchestration model coq/Model/Run.v)  -- _partial
+    Indexed by the guard table of the libcst pipeline's [apply] (python sources are only handled there): when it returns
+    before writing if no change was reported, then for ANY list Ks of libcst codemods, options, project and oracles, and
+    any invariant Good on file text preserved by the transformers OF THE RUN (True, or the complement of the finding
+    classes such as kf_lazy_logging_quote): if each of them maps Good text that parses to Good text that parses, every
+    non-manifest file that was Good and parsed before the run is Good and parses after it.
+    _partial: the premise is a contract of the transformers; it is DISCHARGED below for use-set-literal
+    ([C01_use_set_literal_run_parses]) and only searched for the transformers that are not modelled. *)
+From CM Require Import Model.Run Proofs.RunLift Proofs.LiftKernels.
+Theorem C01_whole_run_lift_partial : C01_lift_statement run_tables_v.
 Proof. exact C01_lift. Qed.
-Print Assumptions C01_whole_run_lift.
-(** the statement above is the law, not the vacuous branch: on the tables read from the current source every pipeline
-    returns early when the transformer reports no change (if a pipeline loses that guard this example stops compiling) *)
-Example C01_lift_not_vacuous : nochange_guarded run_tables_v = true.
+Print Assumptions C01_whole_run_lift_partial.
+(** the statement above is the law, not the vacuous branch: on the tables read from the current source the libcst pipeline
+    returns early when the transformer reports no change (if it loses that guard this example stops compiling) *)
+Example C01_lift_not_vacuous : libcst_nochange_guarded run_tables_v = true.
 Proof. reflexivity. Qed.
+
+(** lifting + kernel, composed into ONE statement: after ANY run of codemods whose transformer is use-set-literal's rewrite
+    (Model/Rewrites.v: rw_set_literal, on every expression of the mini-Python AST; trees are printed by MiniPy.pp), every
+    non-manifest file that parsed before the run parses after it.  The parser is an abstract function with two contracts:
+    it only yields grammatical trees ([wf]), and the printed text of a grammatical tree parses. *)
+Theorem C01_use_set_literal_run_parses : C01_set_literal_run_statement run_tables_v.
+Proof. exact (C01_set_literal_run_all run_tables_v). Qed.
+Print Assumptions C01_use_set_literal_run_parses.
+(** the kernel fact it rests on, for EVERY expression (not only the root site) *)
+Theorem C01_kernel_set_literal_wf_all : forall e, MiniPy.wf e = true -> MiniPy.wf (Rewrites.rw_set_literal e) = true.
+Proof. exact rw_set_literal_wf. Qed.
+Print Assumptions C01_kernel_set_literal_wf_all.
 
 (** a file without a changeset is byte-identical, hence still parses *)
 Theorem C01_unchanged_files_identical : C03_unchanged_statement.
